@@ -59,18 +59,18 @@ func ruleEntryPointsStoreNothing(w *World, r *Report, rule string) {
 	}
 }
 
-// resolveRegions analyses the lifetime switch of resolve.
+// ruleResolveSwitch analyses how resolve dispatches on the lifetime (switch or
+// if-chain), on the function's flow restricted to each lifetime.
 func ruleResolveSwitch(w *World, r *Report, rSingleton, rScoped, rTransient string) {
 	ro := resolveRoles(w)
 	fi := ro.resolve
 	r.Analysed(fi)
 	info := fi.Pkg.TypesInfo
-	sws := lifetimeSwitches(w, fi)
-	if len(sws) != 1 {
-		r.Undecided(rSingleton+rScoped+rTransient, fi.Name()+"#lifetime-switch", fi.Decl.Pos(), "expected one Lifetime switch in resolve, found %d", len(sws))
+	d := lifetimeDispatch(w, fi)
+	if !d.dispatches() {
+		r.Undecided(rSingleton+rScoped+rTransient, fi.Name()+"#lifetime-dispatch", fi.Decl.Pos(), "resolve does not dispatch on the lifetime")
 		return
 	}
-	sw := sws[0]
 	ev := withStoreGens(trackingEvents(w, ro), w, ro)
 	ev.Stop = ro.isCreate // the creation chain is checked on its own (ruleCreateChain)
 	type region struct {
@@ -79,178 +79,160 @@ func ruleResolveSwitch(w *World, r *Report, rSingleton, rScoped, rTransient stri
 		must *Sol
 	}
 	reg := func(name string) *region {
-		stmts, ok := caseRegion(info, sw, name)
-		if !ok {
-			return nil
-		}
-		fl := synthFlow(w, fi, stmts)
-		sol := ev.Solve(fl, false)
-		all := Facts{}
-		for _, b := range fl.G.Blocks {
-			for k := range sol.Out[b] {
-				all[k] = true
-			}
-		}
-		return &region{fl: fl, may: all, must: ev.Solve(fl, true)}
+		may, fl := d.mayFacts(w, ev, name)
+		return &region{fl: fl, may: may, must: ev.Solve(fl, true)}
 	}
+	// exits after the dispatch decided for the lifetime
 	if rSingleton != "" {
 		con := fi.Name() + "#Singleton"
-		if rg := reg("Singleton"); rg == nil {
-			r.Fail(rSingleton, con, sw.Pos(), "no Singleton clause in resolve")
-		} else {
-			bad := ""
-			if rg.may.Has("call:createInstance") || rg.may.Has("call:Invoke") {
-				bad = "the Singleton clause can construct an instance (it reaches createInstance): a singleton that is missing from the table is created lazily, a second time, outside Build"
-			}
-			if !rg.may.Has("call:getSingleton") {
-				bad = "the Singleton clause does not read the singleton table"
-			}
-			r.Check(bad == "", rSingleton, con, sw.Pos(), true, "the Singleton clause only reads the singleton table; a miss is an error", bad)
+		rg := reg("Singleton")
+		bad := ""
+		if rg.may.Has("call:createInstance") || rg.may.Has("call:Invoke") {
+			bad = "the Singleton clause can construct an instance (it reaches createInstance): a singleton that is missing from the table is created lazily, a second time, outside Build"
 		}
+		if !rg.may.Has("call:getSingleton") {
+			bad = "the Singleton clause does not read the singleton table"
+		}
+		r.Check(bad == "", rSingleton, con, d.pos, true, "the Singleton clause only reads the singleton table; a miss is an error", bad)
 	}
 	if rScoped != "" {
 		con := fi.Name() + "#Scoped"
 		rg := reg("Scoped")
-		if rg == nil {
-			r.Fail(rScoped, con, sw.Pos(), "no Scoped clause in resolve")
-		} else {
-			// createInstance dominated by a miss of getInstance(key) on the same key; the hit edge returns the cached value
-			stmts, _ := caseRegion(info, sw, "Scoped")
-			fl := synthFlow(w, fi, stmts)
-			hitVars := map[types.Object]struct {
-				val types.Object
-				key string
-			}{}
-			ast.Inspect(&ast.BlockStmt{List: stmts}, func(x ast.Node) bool {
-				if as, ok := x.(*ast.AssignStmt); ok && len(as.Lhs) == 2 && len(as.Rhs) == 1 {
-					if c, ok := unparen(as.Rhs[0]).(*ast.CallExpr); ok && callee(info, c) == ro.getInstance.Obj && len(c.Args) == 1 {
-						hitVars[objOf(info, as.Lhs[1])] = struct {
-							val types.Object
-							key string
-						}{objOf(info, as.Lhs[0]), exprStr(c.Args[0])}
-					}
-				}
-				return true
-			})
-			sol := fl.Solve(Spec{Must: true, Edge: func(b *cfg.Block, i int, cond ast.Expr, in Facts) (gen, kill []string) {
-				if cond == nil {
-					return
-				}
-				c := unparen(cond)
-				neg := false
-				if u, ok := c.(*ast.UnaryExpr); ok && u.Op == token.NOT {
-					c, neg = unparen(u.X), true
-				}
-				if hv, ok := hitVars[objOf(info, c)]; ok {
-					if (i == 0) != neg {
-						gen = append(gen, "hit:"+hv.key)
-					} else {
-						gen = append(gen, "miss:"+hv.key)
-					}
-				}
-				return
-			}})
-			bad := ""
-			created := false
-			for _, n := range fl.Nodes() {
-				for _, c := range callsIn(n, false) {
-					if ro.isCreate(callee(info, c)) {
-						created = true
-						missed := false
-						for k := range sol.Before[n] {
-							if strings.HasPrefix(k, "miss:") {
-								missed = true
-							}
-						}
-						if !missed {
-							bad = "createInstance is called without a preceding miss of the scope's cache: every resolution of a scoped service constructs a new instance"
-						}
-					}
+		fl := rg.fl
+		// createInstance dominated by a miss of getInstance(key) on the same key; the hit edge returns the cached value
+		hitVars := map[types.Object]struct {
+			val types.Object
+			key string
+		}{}
+		for _, nd := range fl.Nodes() {
+			if as, ok := nd.(*ast.AssignStmt); ok && len(as.Lhs) == 2 && len(as.Rhs) == 1 {
+				if c, ok := unparen(as.Rhs[0]).(*ast.CallExpr); ok && callee(info, c) == ro.getInstance.Obj && len(c.Args) == 1 {
+					hitVars[objOf(info, as.Lhs[1])] = struct {
+						val types.Object
+						key string
+					}{objOf(info, as.Lhs[0]), exprStr(c.Args[0])}
 				}
 			}
-			if !created {
-				bad = "the Scoped clause never constructs"
-			}
-			for _, ex := range fl.Exits() {
-				at := sol.AtExit(ex)
-				for k := range at {
-					if strings.HasPrefix(k, "hit:") {
-						if ex.Ret == nil || len(ex.Ret.Results) != 2 || !isNilIdent(info, ex.Ret.Results[1]) {
-							bad = "the cache-hit edge does not return the cached instance"
-						} else {
-							okVal := false
-							for _, hv := range hitVars {
-								if objOf(info, ex.Ret.Results[0]) == hv.val {
-									okVal = true
-								}
-							}
-							if !okVal {
-								bad = "the cache-hit edge returns " + exprStr(ex.Ret.Results[0]) + ", not the cached instance"
-							}
-						}
-					}
-				}
-			}
-			if len(hitVars) == 0 {
-				bad = "the Scoped clause does not consult the scope's cache before constructing"
-			}
-			// the key looked up is the key being resolved (a parameter of resolve)
-			for _, hv := range hitVars {
-				isParam := false
-				for _, f := range fi.Decl.Type.Params.List {
-					for _, nm := range f.Names {
-						if nm.Name == hv.key {
-							isParam = true
-						}
-					}
-				}
-				if !isParam {
-					bad = "the cache is consulted with " + hv.key + ", not with the key being resolved"
-				}
-			}
-			r.Check(bad == "", rScoped, con, sw.Pos(), true, "scoped resolution: cache lookup on the resolved key; hit returns the cached instance; construction only on a miss", bad)
 		}
+		sol := fl.Solve(Spec{Must: true, Edge: func(b *cfg.Block, i int, cond ast.Expr, in Facts) (gen, kill []string) {
+			if cond == nil {
+				return
+			}
+			c := unparen(cond)
+			neg := false
+			if u, ok := c.(*ast.UnaryExpr); ok && u.Op == token.NOT {
+				c, neg = unparen(u.X), true
+			}
+			if hv, ok := hitVars[objOf(info, c)]; ok {
+				if (i == 0) != neg {
+					gen = append(gen, "hit:"+hv.key)
+				} else {
+					gen = append(gen, "miss:"+hv.key)
+				}
+			}
+			return
+		}})
+		bad := ""
+		created := false
+		for _, n := range fl.Nodes() {
+			for _, c := range callsIn(n, false) {
+				if ro.isCreate(callee(info, c)) {
+					created = true
+					missed := false
+					for k := range sol.Before[n] {
+						if strings.HasPrefix(k, "miss:") {
+							missed = true
+						}
+					}
+					if !missed {
+						bad = "createInstance is called without a preceding miss of the scope's cache: every resolution of a scoped service constructs a new instance"
+					}
+				}
+			}
+		}
+		if !created {
+			bad = "the Scoped clause never constructs"
+		}
+		for _, ex := range fl.Exits() {
+			at := sol.AtExit(ex)
+			for k := range at {
+				if strings.HasPrefix(k, "hit:") {
+					if ex.Ret == nil || len(ex.Ret.Results) != 2 || !isNilIdent(info, ex.Ret.Results[1]) {
+						bad = "the cache-hit edge does not return the cached instance"
+					} else {
+						okVal := false
+						for _, hv := range hitVars {
+							if objOf(info, ex.Ret.Results[0]) == hv.val {
+								okVal = true
+							}
+						}
+						if !okVal {
+							bad = "the cache-hit edge returns " + exprStr(ex.Ret.Results[0]) + ", not the cached instance"
+						}
+					}
+				}
+			}
+		}
+		if len(hitVars) == 0 {
+			bad = "the Scoped clause does not consult the scope's cache before constructing"
+		}
+		// the key looked up is the key being resolved (a parameter of resolve)
+		for _, hv := range hitVars {
+			isParam := false
+			for _, f := range fi.Decl.Type.Params.List {
+				for _, nm := range f.Names {
+					if nm.Name == hv.key {
+						isParam = true
+					}
+				}
+			}
+			if !isParam {
+				bad = "the cache is consulted with " + hv.key + ", not with the key being resolved"
+			}
+		}
+		r.Check(bad == "", rScoped, con, d.pos, true, "scoped resolution: cache lookup on the resolved key; hit returns the cached instance; construction only on a miss", bad)
 	}
 	if rTransient != "" {
 		con := fi.Name() + "#Transient"
 		rg := reg("Transient")
-		if rg == nil {
-			r.Fail(rTransient, con, sw.Pos(), "no Transient clause in resolve")
-		} else {
-			bad := ""
-			if rg.may.Has("call:getInstance") || rg.may.Has("call:getSingleton") || rg.may.Has("read:"+ownerField(w, ro.cache)) {
-				bad = "the Transient clause consults a cache: a transient instance can be handed out twice"
-			}
-			// every exit is the result of createInstance(descriptor)
-			stmts, _ := caseRegion(info, sw, "Transient")
-			fl := synthFlow(w, fi, stmts)
-			for _, ex := range fl.Exits() {
-				if ex.Ret == nil {
-					continue
-				}
-				okRet := false
-				if len(ex.Ret.Results) == 1 {
-					if c, ok := unparen(ex.Ret.Results[0]).(*ast.CallExpr); ok && ro.isCreate(callee(info, c)) {
-						okRet = true
-					}
-				}
-				if len(ex.Ret.Results) == 2 {
-					// instance, err := createInstance(); return instance, err / return nil, err
-					okRet = rg.must.AtExit(ex).Has("call:createInstance") || fl.Solve(Spec{Must: true, Node: func(n ast.Node, in Facts) (gen, kill []string) {
-						for _, c := range callsIn(n, false) {
-							if ro.isCreate(callee(info, c)) {
-								gen = append(gen, "created")
-							}
-						}
-						return
-					}}).AtExit(ex).Has("created")
-				}
-				if !okRet {
-					bad = "an exit of the Transient clause does not come from a fresh createInstance call"
-				}
-			}
-			r.Check(bad == "", rTransient, con, sw.Pos(), true, "transient resolution always constructs and never looks at a cache", bad)
+		bad := ""
+		if rg.may.Has("call:getInstance") || rg.may.Has("call:getSingleton") || rg.may.Has("read:"+ownerField(w, ro.cache)) {
+			bad = "the Transient clause consults a cache: a transient instance can be handed out twice"
 		}
+		// every exit past the dispatch is the result of createInstance(descriptor)
+		fl := rg.fl
+		created := fl.Solve(Spec{Must: true, Node: func(n ast.Node, in Facts) (gen, kill []string) {
+			for _, c := range callsIn(n, false) {
+				if ro.isCreate(callee(info, c)) {
+					gen = append(gen, "created")
+				}
+			}
+			return
+		}})
+		n := 0
+		for _, ex := range fl.Exits() {
+			if ex.Ret == nil || !created.AtExit(ex).Has("lt:Transient") {
+				continue // an exit before the lifetime was looked at (built-ins, not found)
+			}
+			n++
+			okRet := false
+			if len(ex.Ret.Results) == 1 {
+				if c, ok := unparen(ex.Ret.Results[0]).(*ast.CallExpr); ok && ro.isCreate(callee(info, c)) {
+					okRet = true
+				}
+			}
+			if len(ex.Ret.Results) == 2 {
+				// instance, err := createInstance(); return instance, err / return nil, err
+				okRet = rg.must.AtExit(ex).Has("call:createInstance") || created.AtExit(ex).Has("created")
+			}
+			if !okRet {
+				bad = "an exit of the Transient clause does not come from a fresh createInstance call"
+			}
+		}
+		if n == 0 {
+			bad = "no exit of resolve is specific to transient services"
+		}
+		r.Check(bad == "", rTransient, con, d.pos, true, "transient resolution always constructs and never looks at a cache", bad)
 	}
 }
 
@@ -287,24 +269,8 @@ func ruleWhoWritesTables(w *World, r *Report, rSingle, rCache string, la *LockAn
 			con := fmt.Sprintf("%s#instances:%s/%d", fi.Name(), a.Kind, n)
 			switch {
 			case a.Kind == "index-write":
-				// only in setInstance, inside the Scoped clause
-				ok := fi == ro.setInstance
-				if ok {
-					sws := lifetimeSwitches(w, fi)
-					ok = false
-					if len(sws) == 1 {
-						for _, cl := range sws[0].Body.List {
-							cc := cl.(*ast.CaseClause)
-							if isInside(a.Sel, cc) {
-								for _, e := range cc.List {
-									if o := objOf(fi.Pkg.TypesInfo, e); o != nil && o.Name() == "Scoped" {
-										ok = true
-									}
-								}
-							}
-						}
-					}
-				}
+				// only when setInstance dispatches to Scoped (in its body or in a private helper called from there)
+				ok := onlyUnderLifetime(w, ro, fi, a.Pos(), "Scoped", 3)
 				r.Check(ok, rCache, con, a.Pos(), true, "the scoped cache is filled only in the Scoped clause of setInstance", "the scoped cache is written in "+fi.Name()+" outside the Scoped clause of setInstance")
 			case a.Kind == "write":
 				// whole-map assignment: fresh make, nil
@@ -1226,4 +1192,44 @@ func ruleCreateChain(w *World, r *Report, rule string) {
 	if n == 0 {
 		r.OK(rule, "creation-chain#no-wrappers", ro.createInstance.Decl.Pos(), false, "resolve calls the constructing function directly")
 	}
+}
+
+// onlyUnderLifetime: the code at pos in fi executes only when setInstance has
+// dispatched to lifetime L - fi is setInstance itself, or a private helper all of
+// whose call sites satisfy the same condition.
+func onlyUnderLifetime(w *World, ro *roles, fi *FuncInfo, pos token.Pos, L string, depth int) bool {
+	if fi == ro.setInstance {
+		d := lifetimeDispatch(w, fi)
+		if !d.dispatches() || !d.reachableUnder(w, L, pos) {
+			return false
+		}
+		for _, other := range []string{"Singleton", "Scoped", "Transient"} {
+			if other != L && d.reachableUnder(w, other, pos) {
+				return false
+			}
+		}
+		return true
+	}
+	if depth == 0 || fi.Obj.Exported() {
+		return false
+	}
+	callers := w.Callers()[fi]
+	if len(callers) == 0 {
+		return false
+	}
+	for c := range callers {
+		found := false
+		for _, call := range callsIn(c.Decl.Body, true) {
+			if callee(c.Pkg.TypesInfo, call) == fi.Obj {
+				found = true
+				if !onlyUnderLifetime(w, ro, c, call.Pos(), L, depth-1) {
+					return false
+				}
+			}
+		}
+		if !found {
+			return false
+		}
+	}
+	return true
 }
